@@ -1208,9 +1208,36 @@ impl World for Frontends {
                     } else {
                         gen_req(&mut rng)
                     };
+                    let mut ps_idx = if !good_ps.is_empty() && rng.pct(80) { *rng.pick(&good_ps) } else { rng.below(psets.len()) as u8 };
+                    let mut lr = Rng::sub(seed ^ ops.len() as u64, "linkstep");
+                    let link_first = if kind == 0 && lr.pct(35) {
+                        // mostly over a policy set that has a template to link
+                        let with_t: Vec<u8> = (0..psets.len()).filter(|i| !psets[*i].templates.is_empty() && (good_ps.is_empty() || good_ps.contains(&(*i as u8)))).map(|i| i as u8).collect();
+                        if !with_t.is_empty() && lr.pct(85) {
+                            ps_idx = *lr.pick(&with_t);
+                        }
+                        let doc = &psets[ps_idx as usize % psets.len()];
+                        let (tid, text) = if !doc.templates.is_empty() && lr.pct(90) { doc.templates[lr.below(doc.templates.len())].clone() } else if !doc.statics.is_empty() && lr.pct(50) { doc.statics[lr.below(doc.statics.len())].clone() } else { ("no-such-template".to_string(), String::new()) };
+                        let uid = |lr: &mut Rng| if lr.pct(90) { format!("{}::\"{}{}\"", lr.pick(&["User", "Group", "Doc"]), lr.pick(&["u", "g", "d"]), lr.below(4)) } else { "not a uid".to_string() };
+                        let mut p = if text.contains("?principal") { Some(uid(&mut lr)) } else { None };
+                        let mut r = if text.contains("?resource") { Some(uid(&mut lr)) } else { None };
+                        // sometimes too few or too many bindings
+                        match lr.below(12) {
+                            0 => p = None,
+                            1 => r = None,
+                            2 => p = Some(uid(&mut lr)),
+                            3 => r = Some(uid(&mut lr)),
+                            _ => {}
+                        }
+                        let taken: Vec<&String> = doc.statics.iter().map(|x| &x.0).chain(doc.templates.iter().map(|x| &x.0)).chain(doc.links.iter().map(|l| &l.id)).collect();
+                        let new_id = if !taken.is_empty() && lr.pct(20) { (*lr.pick(&taken)).clone() } else { format!("cli-link-{}", lr.below(3)) };
+                        Some(crate::worlds::frontends_cli::LinkStep { tid, new_id, p, r, give_links_file: lr.pct(75) })
+                    } else {
+                        None
+                    };
                     Op::Cli {
                         thread,
-                        cli: crate::worlds::frontends_cli::CliOp { kind, ps: if !good_ps.is_empty() && rng.pct(80) { *rng.pick(&good_ps) } else { rng.below(psets.len()) as u8 }, store: rng.below(stores.len()) as u8, schema, req, verbose: rng.pct(50), request_validation, request_json: rng.pct(40), policy_json: rng.pct(30), deny_warnings: rng.pct(40), level: if rng.pct(35) { Some(rng.below(3) as u8) } else { None }, fmt_width: *rng.pick(&[0u16, 20, 40, 80, 120]), fmt_indent: *rng.pick(&[0u8, 2, 4]), fmt_check: rng.pct(60), fmt_tail: rng.below(4) as u8, faults, hash_seed: hs.next() },
+                        cli: crate::worlds::frontends_cli::CliOp { annotate_ids: lr.pct(if link_first.is_some() { 92 } else { 75 }), link_first, kind, ps: ps_idx, store: rng.below(stores.len()) as u8, schema, req, verbose: rng.pct(50), request_validation, request_json: rng.pct(40), policy_json: rng.pct(30), deny_warnings: rng.pct(40), level: if rng.pct(35) { Some(rng.below(3) as u8) } else { None }, fmt_width: *rng.pick(&[0u16, 20, 40, 80, 120]), fmt_indent: *rng.pick(&[0u8, 2, 4]), fmt_check: rng.pct(60), fmt_tail: rng.below(4) as u8, faults, hash_seed: hs.next() },
                     }
                 }
             };
